@@ -69,6 +69,12 @@ def run_model(spec, cfg, deps, wd, cases_name):
         res["output"] = op
         return res, None
     shutil.rmtree(td, ignore_errors=True)
+    for f in os.listdir(cdir):  # results for older versions of this specification
+        if f.startswith(cfg.replace(".cfg", "") + "-") and not f.startswith(key + "."):
+            try:
+                os.remove(os.path.join(cdir, f))
+            except OSError:
+                pass
     tmpc = cases + ".tmp%d" % os.getpid()
     shutil.copy(tmp, tmpc)
     os.replace(tmpc, cases)
